@@ -618,8 +618,14 @@ def r12_unit_scale(ctx):
               "TimePoint.__sub__ builds its result with %s: a difference "
               "must be an exact duration" % sorted(kws), ("C04",))
     # the borrow chain: each borrow decrements the next unit up by one
-    chain = [("diff_second", "diff_minute"), ("diff_minute", "diff_hour"),
-             ("diff_hour", "diff_day")]
+    kwvar = {}
+    for n in walk_no_nested(sub.node):
+        if isinstance(n, ast.Return) and isinstance(n.value, ast.Call) and \
+                U(n.value.func) == "Duration":
+            kwvar = {k.arg: U(k.value) for k in n.value.keywords}
+    chain = [(kwvar.get("seconds"), kwvar.get("minutes")),
+             (kwvar.get("minutes"), kwvar.get("hours")),
+             (kwvar.get("hours"), kwvar.get("days"))]
     found = 0
     for n in walk_no_nested(sub.node):
         if isinstance(n, ast.If) and isinstance(n.test, ast.Compare) and \
